@@ -409,6 +409,42 @@ DecGlyph(bs) ==
            hi == \E i \in 1 .. Len(cs) : HasBit(cs[i].flags, 256) IN
        [t |-> "c", bbox |-> bbox, comps |-> cs, instr |-> IF hi THEN RB(bs, a + 2, RU16(bs, a)) ELSE <<>>]
 
+\* ---- a simple glyph in the packing its flag bytes describe ------------------------------
+\* (what other writers produce and every reader must accept; kind "glyphp": these bytes are parsed,
+\*  written and parsed again).  Per point: X_SHORT (2) / Y_SHORT (4): the difference is one unsigned
+\* byte whose sign is bit 16 / 32 (set = positive); without SHORT, bit 16 / 32 set means "same as the
+\* previous point" (no bytes), clear means a 16-bit difference.  REPEAT (8): the flag byte is followed by
+\* the number of further points carrying the same flag byte (here: the maximal run, at most 255).
+GDelta(v, i, c) == v.pts[i][c] - (IF i = 1 THEN 0 ELSE v.pts[i - 1][c])
+CoordPackOk(f, d, sh, sm) ==
+  IF HasBit(f, sh) THEN (IF HasBit(f, sm) THEN d \in 0 .. 255 ELSE d \in -255 .. 0)
+  ELSE (HasBit(f, sm) => d = 0)
+PackedOk(v) ==
+  /\ v.t = "s"
+  /\ \A i \in 1 .. Len(v.pts) : /\ CoordPackOk(v.pts[i][1], GDelta(v, i, 2), 2, 16)
+                                /\ CoordPackOk(v.pts[i][1], GDelta(v, i, 3), 4, 32)
+EncCoordPacked(f, d, sh, sm) ==
+  IF HasBit(f, sh) THEN U8(IF d < 0 THEN -d ELSE d) ELSE IF HasBit(f, sm) THEN <<>> ELSE I16(d)
+RECURSIVE RunLen(_, _, _)
+RunLen(pts, i, n) ==
+  IF i + n + 1 <= Len(pts) /\ n < 255 /\ pts[i + n + 1][1] = pts[i][1] THEN RunLen(pts, i, n + 1) ELSE n
+RECURSIVE EncFlagsPacked(_, _)
+EncFlagsPacked(pts, i) ==
+  IF i > Len(pts) THEN <<>>
+  ELSE IF HasBit(pts[i][1], 8) THEN LET r == RunLen(pts, i, 0) IN <<pts[i][1], r>> \o EncFlagsPacked(pts, i + r + 1)
+  ELSE <<pts[i][1]>> \o EncFlagsPacked(pts, i + 1)
+EncGlyphPacked(v) ==
+  I16(Len(v.ends)) \o CatMap(v.bbox, I16) \o CatMap(v.ends, U16) \o U16(Len(v.instr)) \o v.instr
+  \o EncFlagsPacked(v.pts, 1)
+  \o Cat([i \in 1 .. Len(v.pts) |-> EncCoordPacked(v.pts[i][1], GDelta(v, i, 2), 2, 16)])
+  \o Cat([i \in 1 .. Len(v.pts) |-> EncCoordPacked(v.pts[i][1], GDelta(v, i, 3), 4, 32)])
+\* size of the packed form, field by field (an independent count the encoder must agree with)
+PackedSize(v) ==
+  12 + 2 * Len(v.ends) + Len(v.instr) + Len(EncFlagsPacked(v.pts, 1))
+  + SumSeq([i \in 1 .. Len(v.pts) |-> LET f == v.pts[i][1] IN
+              (IF HasBit(f, 2) THEN 1 ELSE IF HasBit(f, 16) THEN 0 ELSE 2)
+              + (IF HasBit(f, 4) THEN 1 ELSE IF HasBit(f, 32) THEN 0 ELSE 2)])
+
 ---------------------------------------------------------------------------
 \* ---- dispatch --------------------------------------------------------------------------
 TInFormat(k, v) ==
